@@ -26,7 +26,7 @@ var ElPatterns = []string{`^my-`, `^x-[a-z-]+$`, `^h[1-6]$`, `^(b|i|em)$`, `-`, 
 var ElPatternsDanger = []string{`.*`, `^s`, `^(script|style)$`, `(?i)script`, `^.{5,6}$`}
 
 var genAttrNames = []string{"id", "class", "title", "lang", "href", "src", "cite", "rel", "target", "alt", "width", "height", "align", "type", "value", "name",
-	"style", "data-x", "onclick", "xlink:href", "crossorigin", "sandbox", "srcset", "action", "background", "poster", "datetime", "colspan", "x", "role", "aria-label"}
+	"style", "data-x", "onclick", "xlink:href", "crossorigin", "sandbox", "srcset", "action", "background", "poster", "datetime", "colspan", "x", "role", "aria-label", "media", "method", "http-equiv", "content", "loading", "srcdoc", "download"}
 
 var genStyleProps = []string{"color", "background-color", "width", "height", "text-align", "font-size", "margin", "border", "background", "background-image", "font-family",
 	"display", "float", "opacity", "z-index", "text-decoration", "list-style", "transform", "filter", "animation", "behavior", "-moz-binding", "zoom", "x-unknown"}
@@ -107,6 +107,9 @@ func RandomOps(r *rand.Rand, o GenOpts) []Op {
 		max = 10
 	}
 	n := 2 + r.Intn(max)
+	if o.MaxRules == 0 && r.Intn(40) == 0 {
+		n = 40 + r.Intn(80) // a large policy: table sizes and rule counts well beyond the usual
+	}
 	for i := 0; i < n; i++ {
 		fresh := r.Intn(3) == 0
 		switch k := r.Intn(20); {
